@@ -160,7 +160,7 @@ PROPS = {
     ),
     "C11": dict(
         src=[("props/c11.cpp", 5)],
-        quick_cases=120, thorough_cases=3000, procs=16,
+        quick_cases=60, thorough_cases=3000, procs=16,
         rule="cases are (degree K=1..6, group in {SO3, SE2, SE3, Bundle<SO3,R2>, R3}, cumulative basis in {Bernstein, B-spline, generated matrix}, u in {0, 1} or (0,1), "
              "differences v_i with rotation norm < pi-0.1, anchor g0) from a tape; non-trivial = 0 < u < 1 and >= 2 non-commuting differences; distinct = hash of decoded values",
         technique="property-based testing against products of matrix exponentials carried as order-3 matrix Taylor polynomials (exact value / velocity / acceleration / jerk) and central differences of that reference for the Jacobians",
